@@ -17,6 +17,8 @@ UNITS = {
     's_c07': dict(cpp='harness/s_session.cpp', coroutines=('T_reader_session', 'T_remover_session', 'T_epoch', 'T_gc'), inline_all=True, sessions=2, cdefs=('YK_VAL_CAP=16', 'YK_MAX_SLEEPS=2', 'YK_NALLOC=3', 'YK_DRAIN_ROUNDS=1', 'YK_NEV=4')),
     'k_sites': dict(cpp='harness/k_sites.cpp', cdefs=('YK_VAL_CAP=16',)),
     's_c07l': dict(cpp='harness/s_session.cpp', coroutines=('T_reader_open', 'T_remover_session', 'T_epoch'), inline_all=True, sessions=2, cdefs=('YK_VAL_CAP=16', 'YK_MAX_SLEEPS=2', 'YK_NALLOC=3', 'YK_DRAIN_ROUNDS=1')),
+    's_c01_gr': dict(cpp='harness/s_point.cpp', coroutines=('T_get0', 'T_remove1'), inline_all=True, cdefs=('YK_VAL_CAP=16', 'YK_NALLOC=4', 'YK_DRAIN_ROUNDS=2'), cuts=('delete_ofILb0', 'get_child_of', 'interior_node9delete_of', '9delete_ofEPvPNS_13tree_instanceEPNS_9base_nodeE')),
+    'n_misc': dict(cpp='harness/n_misc.cpp', cdefs=('YK_VAL_CAP=64',)),
     'k_value': dict(cpp='harness/k_value.cpp', cdefs=('YK_VAL_CAP=48',)),
 }
 
@@ -43,6 +45,10 @@ _T1_BIG = [H('n_t1', 'H_t1_put_n14', 'put into T1(14) (last insert before the no
            H('n_t1s', 'H_t1_put_split', 'put into a FULL root border: border_split + new interior root; map semantics, RI, C12', T1B, tier='thorough', timeout=3400)]
 
 REGISTRY = {
+    'C20': [
+        H('n_misc', 'H_c20_t1_n1', 'real mem_usage (virtual dispatch) on T1(1): values of symbolic length 0..8 and alignment 1..16', 'exact node count / reserved / used bytes', unwind={'_M_realloc': 3}),
+        H('n_misc', 'H_c20_t3', 'interior root over two leaves: per-level node counts and footprints', 'T3(2;1,2)', unwind={'_M_realloc': 3}),
+    ],
     'C07': [
         H('s_c07l', 'H_c07_lean_t1', 'real enter/leave + epoch_thread + garbage_collection: reader session (left open) || remover session (unlink, retire) || epoch thread, then real gc passes: memory obtained inside the open session is not released', 'NT=3, sessions=2, template remover/epoch/reader/remover (4 contexts, every pre-emption point symbolic), <=2 epoch periods, SC', sync=3, timeout=2400),
     ],
@@ -102,6 +108,10 @@ REGISTRY = {
 }
 
 LEVEL_TEXT = {
+    'C20': dict(text='The real mem_usage traversal (virtual dispatch through the translated vtables, std::vector growth from the IR) is executed symbolically on concrete shapes '
+                     'with symbolic keys and symbolic value lengths/alignments and compared with an independent per-level count of nodes and allocated bytes.',
+                note='Shapes T1(1) and T3(2;1,2) (the T1(3) and two-layer T2 harnesses exist in harness/n_misc.cpp but did not finish symex in 15 min - std::vector growth on byte-array heap objects - and are not registered); value lengths 0..8, alignments 1..16; the API wrapper mem_usage(name) adds only find_storage (covered by C13 where registered). '
+                     'Monotonicity of used bytes follows from the exact per-occupancy formula checked at two occupancies.', ref='DESIGN.md 4/C20'),
     'C07': dict(text='(i) protocol: the real enter/leave, epoch_thread and garbage_collection code run as sequentialized coroutines; which hook each thread is pre-empted at is symbolic, '
                      'the thread order follows stated templates (the full 4-thread / free-order search exceeds 25 GB); the assertion is "a block obtained inside a session is live while that '
                      'session is open". (ii) call-site conformance: the kind-N put/remove harnesses (C02) assert that every unlinked value is retired exactly once with the caller epoch and nothing is freed in place.',
